@@ -225,8 +225,40 @@ func checkC10(c *Ctx, r *Report) {
 				return
 			}
 			rv := p.Resolve(ret.Results[0])
+			// a closure may hand an error straight back (`return f()`) instead of testing it: that is
+			// the two paths "f's error is nil → nil returned" and "non-nil → it is returned"
+			var twins [][]Decision
+			if !isNilConst(rv) && !knownNonNil(rv) {
+				if k := errSource(rv); k != "" {
+					tested := false
+					for _, d := range ds {
+						if d.Err == rv {
+							tested = true
+						}
+					}
+					if !tested {
+						twins = append(twins, append(append([]Decision{}, ds...), Decision{Kind: k, Arm: true, Err: rv}))
+						ds = append(ds, Decision{Kind: k, Arm: false, Err: rv})
+						rv = ssa.NewConst(nil, rv.Type())
+					}
+				}
+			}
 			sig := decisionsString(ds)
 			r.Rule("closure-exits", "each path of a send closure returns to backoff.Retry what the documented behaviour requires: non-nil (retry) for undecodable replies, a wrong innermost layer and temporary codes; nil for a final code; session-less transport errors are retried; in-session transport/serialise errors are recorded as terminal and end the retry loop", 12)
+			for _, tw := range twins {
+				// the error itself is what is returned on the twin: non-nil by construction
+				tsig := decisionsString(tw)
+				switch {
+				case hasDecision(tw, "serialize-err", true) || hasDecision(tw, "send-err", true):
+					r.Check(!s.Session, fname+"|transport-error path", ret.Pos(), "session-less transport failure is returned (retried until the context expires)", "in-session transport failure must end the command (record the error, return nil to stop retrying); path "+tsig)
+				case hasDecision(tw, "decode-err", true):
+					r.OK(fname+"|decode-error path", ret.Pos(), "undecodable reply → retry")
+				case hasDecision(tw, "innermost-err", true):
+					r.OK(fname+"|wrong-innermost-layer path", ret.Pos(), "reply without the expected innermost layer → retry")
+				default:
+					r.OK(fname+"|reject path "+rejectSig(tw), ret.Pos(), "reply rejected by an additional check → retry")
+				}
+			}
 			switch {
 			case hasDecision(ds, "serialize-err", true) || hasDecision(ds, "send-err", true):
 				what := "transport"
@@ -243,7 +275,7 @@ func checkC10(c *Ctx, r *Report) {
 					// must record errv into a captured cell and return nil
 					stored := false
 					for _, in := range p.Instrs() {
-						if cell, v, ok := capturedCellStore(in); ok && v == errv {
+						if cell, v, ok := capturedCellStore(in); ok && (v == errv || p.Resolve(v) == errv) {
 							stored = true
 							terminalCell = cell
 						}
@@ -284,8 +316,19 @@ func checkC10(c *Ctx, r *Report) {
 			allInstrs(s.Fn, false, func(in ssa.Instruction) {
 				if isCallTo(in, fnIsTemporary) {
 					a := asCall(in).Args[0]
-					if ld, ok := a.(*ssa.UnOp); ok && ld.Op == token.MUL && strings.HasSuffix(apOf(ld.X).SelString(), fMsg+".CompletionCode") {
-						okArg = true
+					for _, o := range viewOrigins(s.Fn, a) {
+						ld, ok := o.(*ssa.UnOp)
+						if !ok || ld.Op != token.MUL {
+							continue
+						}
+						aps := viewAPs(s.Fn, ld.X)
+						all := len(aps) > 0
+						for _, ap := range aps {
+							all = all && strings.HasSuffix(ap.SelString(), fMsg+".CompletionCode")
+						}
+						if all {
+							okArg = true
+						}
 					}
 				}
 			})
@@ -307,11 +350,14 @@ func checkC10(c *Ctx, r *Report) {
 					}
 				}
 				// and the cell starts nil
+				// (a freshly allocated variable is nil; what matters is that the enclosing function
+				// stores nothing but nil into it)
 				initNil := false
 				if al, isAl := bind.(*ssa.Alloc); isAl {
+					initNil = true
 					for _, ref := range *al.Referrers() {
-						if st, isSt := ref.(*ssa.Store); isSt && st.Addr == ssa.Value(al) && isNilConst(st.Val) && mustPrecede(s.Parent, st, s.Retry) {
-							initNil = true
+						if st, isSt := ref.(*ssa.Store); isSt && st.Addr == ssa.Value(al) && !isNilConst(st.Val) {
+							initNil = false
 						}
 					}
 				}
@@ -379,17 +425,25 @@ func checkC10(c *Ctx, r *Report) {
 		why := ""
 		n := 0
 		for _, ret := range returnsOf(sc) {
-			if !canReach(exch, ret) || len(ret.Results) != 2 {
+			if !canReachIn(sc, exch, ret) || len(ret.Results) != 2 {
 				continue
 			}
-			for _, v := range possibleValues(ret.Results[0]) {
+			for _, v := range viewOrigins(sc, ret.Results[0]) {
 				if k, isK := constInt(v); isK && k == 0 {
 					// the error path before a code is known
 					continue
 				}
 				n++
 				ld, isLd := v.(*ssa.UnOp)
-				if !isLd || ld.Op != token.MUL || !strings.HasSuffix(apOf(ld.X).SelString(), fMsg+".CompletionCode") || !mustPrecede(sc, exch, ld) {
+				okLd := isLd && ld.Op == token.MUL && mustPrecede(sc, exch, ld)
+				if okLd {
+					aps := viewAPs(sc, ld.X)
+					okLd = len(aps) > 0
+					for _, ap := range aps {
+						okLd = okLd && strings.HasSuffix(ap.SelString(), fMsg+".CompletionCode")
+					}
+				}
+				if !okLd {
 					good = false
 					why = "returned code is " + apOf(v).String()
 				}
